@@ -212,3 +212,77 @@ func VerifC19WorkflowBranch() {
 }
 
 var _ = callbacks.InitCallbackHandlers
+
+// a consumer of a fan-in merge that closes its input after one source has ended but before the other has
+func VerifC19MergeCloseAfterEnd() {
+	ctx := context.Background()
+	vcfg("preempt", vtier())
+	K := 3
+	pa, pb := &c19Prod{key: "a", k: 1}, &c19Prod{key: "b", k: K}
+	g := NewGraph[map[string]any, map[string]any]()
+	_ = g.AddLambdaNode("a", pa.lambda(1))
+	_ = g.AddLambdaNode("b", pb.lambda(0))
+	_ = g.AddLambdaNode("c", TransformableLambda(func(ctx context.Context, in *schema.StreamReader[map[string]any]) (*schema.StreamReader[map[string]any], error) {
+		seenA, seenB := false, 0
+		for i := 0; i < 8 && !(seenA && seenB >= 1); i++ {
+			m, err := in.Recv()
+			if err != nil {
+				break
+			}
+			if _, ok := m["a"]; ok {
+				seenA = true
+			}
+			if _, ok := m["b"]; ok {
+				seenB++
+			}
+		}
+		in.Close() // stops reading while b may still be producing
+		return schema.StreamReaderFromArray([]map[string]any{{"c": 1}}), nil
+	}))
+	_ = g.AddEdge(START, "a")
+	_ = g.AddEdge(START, "b")
+	_ = g.AddEdge("a", "c")
+	_ = g.AddEdge("b", "c")
+	_ = g.AddEdge("c", END)
+	r, err := g.Compile(ctx, WithNodeTriggerMode(AllPredecessor))
+	vassert(err == nil, "fan-in graph compiles")
+	sr, err := r.Stream(ctx, map[string]any{"in": 1})
+	vassert(err == nil, "stream run starts")
+	c19ReadAll(sr)
+	c19Finish([]*c19Prod{pa, pb}, "fan-in consumer closing early")
+}
+
+// a streaming node with two stream branches, each reading one chunk; the caller stops early
+func VerifC19TwoBranches() {
+	ctx := context.Background()
+	vcfg("preempt", vtier())
+	vcfg("selectfirst", 1)
+	pa := &c19Prod{key: "a", k: 4}
+	g := NewGraph[map[string]any, map[string]any]()
+	_ = g.AddLambdaNode("a", pa.lambda(0))
+	_ = g.AddLambdaNode("x1", c19Forward("x1"))
+	_ = g.AddLambdaNode("x2", c19Forward("x2"))
+	_ = g.AddEdge(START, "a")
+	mkBranch := func(target string) *GraphBranch {
+		return NewStreamGraphBranch(func(ctx context.Context, in *schema.StreamReader[map[string]any]) (string, error) {
+			_, _ = in.Recv()
+			in.Close()
+			return target, nil
+		}, map[string]bool{"x1": true, "x2": true})
+	}
+	_ = g.AddBranch("a", mkBranch("x1"))
+	_ = g.AddBranch("a", mkBranch("x2"))
+	_ = g.AddEdge("x1", END)
+	_ = g.AddEdge("x2", END)
+	r, err := g.Compile(ctx, WithNodeTriggerMode(AllPredecessor))
+	vassert(err == nil, "graph with two stream branches on one node compiles")
+	sr, err := r.Stream(ctx, map[string]any{"in": 1})
+	vassert(err == nil, "stream run starts")
+	readN := vchoose("readN", 4)
+	if readN == 3 {
+		c19ReadAll(sr)
+	} else {
+		c19Read(sr, readN)
+	}
+	c19Finish([]*c19Prod{pa}, "node with two stream branches")
+}
